@@ -113,6 +113,21 @@ CHECKS = {
          "1..253 against Framing!Build; the read sizes real serial / RTU-over-TCP clients ask of the transport must sum to exactly the "
          "reply frame for normal and exception replies.", "4 C14",
          "exhaustive enumeration judged by TLC (PredictTrace, ClientTrace ReadsExactlyFrame)"),
+ "C15": ("ClientTxn", "model_checking",
+         "ThreadsMC: every interleaving of 2-4 caller threads x 2-3 transactions (Acquire, Send, Recv, Release) keeps mutual exclusion, "
+         "own replies, no loss/duplication and completes (liveness); a missing lock or a lock held only around send is rejected. Real "
+         "threads run on one real ModbusTcpClient under a deterministic scheduler (pre-emption at connect/send/select/recv/virtual sleep "
+         "and every lock operation, replies of different lengths and latencies): every placement of one pre-emption per thread plus seeded "
+         "random and strided schedules; TLC checks Mutex / OwnReply / NoLoss / NoDup / NoDeadlock on each recorded trace, and the same "
+         "schedules with a no-op lock must be rejected.", "4 C15",
+         "TLC model checking over schedules (ThreadsMC) + TLC trace validation (ThreadsTrace) of scheduled real threads"),
+ "C16": ("AsyncClient", "model_checking",
+         "AsyncClientMC: all histories of up to 5 requests with a transaction-id space of 4 (wrap and collisions reachable), replies in "
+         "any order, duplicates, unsolicited replies, loss at every point: fires-once, tid match, distinct outstanding ids, loss fails "
+         "all, nothing forgotten; an id-reusing allocator is rejected. Seeded histories (incl. split replies and counter presets that "
+         "wrap onto outstanding ids) run on the real Twisted ModbusClientProtocol / ModbusSerClientProtocol with a StringTransport; every "
+         "event's set of fired deferreds is validated by TLC against the model state.", "4 C16",
+         "TLC model checking (AsyncClientMC) + TLC trace validation (AsyncTrace)"),
 }
 NA_REASON = "check not built yet in this round (see DESIGN.md section 8 for the order of work); no claim is made"
 ALL = ["C%02d" % i for i in range(1, 21)]
